@@ -407,6 +407,8 @@ def monitorWriters (evs : List Ev) (peer : String) (conns : List ConnInfo) (segs
       let r : List Bytes := match conn with | some c => ((allBodies.lookup c.id).getD []) | none => []
       let mine := calls.filter fun (_, w', _, _, _) => w' == w
       for (sq, _, _, body, ret) in mine do
+        if ret == "pending" then
+          fails := fails ++ ["C04 a WriteUpdate call never returned (deadlock)"]
         let cnt := (r.filter (· == body)).length
         -- (what the remote never read because it closed or reset the connection itself is TCP's doing, not corebgp's)
         let remoteGone := match conn with | some c => c.remoteClosed.isSome | none => true
@@ -499,6 +501,17 @@ def monitorPacing (evs : List Ev) (peer : String) : List String := Id.run do
       for (d1, d2) in dials.zip (dials.drop 1) do
         if d2.t + eps < d1.t + ih then
           fails := fails ++ [s!"C11 two consecutive refused attempts were only {(d2.t - d1.t) / ms} ms apart although the idle-hold time is {ih / ms} ms"]
+    -- while connects hang, every expired connect-retry timer abandons the attempt and starts a new one
+    match evs.find? (fun e => e.peer == peer && e.ev == "listen" && e.arg 0 == "stalled"), evs.find? (fun e => e.peer == peer && e.ev == "stall-end") with
+    | some a, some b =>
+      let cr := (c.arg 5).toNat?.getD 0 * ms
+      let ds := (dials.filter fun d => d.seq > a.seq && d.seq < b.seq).map (·.t)
+      let pts := ds ++ [b.t]
+      for (t1, t2) in pts.zip (pts.drop 1) do
+        if t2 > t1 + cr + 400 * ms then
+          fails := fails ++ [s!"C11 a hanging connect was not abandoned and retried after the connect-retry time ({cr / ms} ms): {(t2 - t1) / ms} ms without a new attempt"]
+      if ds.isEmpty then fails := fails ++ ["C11 no outbound attempt while connects hang"]
+    | _, _ => pure ()
     -- once the remote behaves, Established within idle-hold + connect-retry (+ slack)
     match evs.find? fun e => e.peer == peer && e.ev == "wellbehaved" with
     | some wb =>
@@ -579,6 +592,8 @@ def monitorAdmission (evs : List Ev) (peer : String) (conns : List ConnInfo) : L
         if c.ended.isNone && c.remoteClosed.isNone then fails := fails ++ [s!"C13 a connection from {src} to {dst} that matches no peer was not closed"]
       else if inbProgress || estUp || held then
         if served then fails := fails ++ [s!"C13 a connection from a configured peer was served although the peer was busy (inbound in progress / Established / held down)"]
+        if !served && c.ended.isNone && c.remoteClosed.isNone then
+          fails := fails ++ ["C13 a connection that arrived while the peer was busy was neither served nor closed"]
       else if !served then
         fails := fails ++ [s!"C13 a connection from configured peer {src} to {dst} was not served"]
   return fails
